@@ -7,10 +7,11 @@ cd "$(dirname "$0")/../harness"
 B=$(dirname "$(rustup +nightly which rustc)")/../lib/rustlib/x86_64-unknown-linux-gnu/bin
 OUT=/verif/.scratch/cov
 rm -rf "$OUT"; mkdir -p "$OUT"
-RUSTFLAGS="-Cinstrument-coverage" CARGO_NET_OFFLINE=true cargo +nightly build --offline --profile checked --target-dir target-cov 2>&1 | tail -1
+LLVM_PROFILE_FILE=$OUT/build-%p-%m.profraw RUSTFLAGS="-Cinstrument-coverage" CARGO_NET_OFFLINE=true cargo +nightly build --offline --profile checked --target-dir target-cov 2>&1 | tail -1
 for p in C01 C02 C03 C04 C05 C06 C07 C08 C09 C10 C11 C12 C13 C14 C15 C16 C17 C18 C19 C20; do
   LLVM_PROFILE_FILE=$OUT/$p-%p.profraw ./target-cov/checked/mv-worker $p --scale "$SCALE" --scratch $OUT/fs-$p --out $OUT/$p.json >/dev/null 2>&1 || true
 done
+rm -f $OUT/build-*.profraw
 "$B/llvm-profdata" merge -sparse $OUT/*.profraw -o $OUT/all.profdata
 "$B/llvm-cov" report ./target-cov/checked/mv-worker -instr-profile=$OUT/all.profdata /repo/src 2>/dev/null | awk 'NR>2 && NF>=10 {printf "%-28s lines %5s  missed %5s  covered %s\n", $1, $8, $9, $10}'
 rm -rf "$OUT"
